@@ -156,7 +156,11 @@ func (e *ResourceUpdateExecutorImpl) LeveledUpdateBatch(updaters [][]ResourceUpd
 	}
 
 	for i := len(updaters) - 1; i >= 0; i-- {
-		for _, updater := range updaters[i] {
+		// also walk each level backwards: a caller may hand over a cgroup and its children in one level, the parent
+		// first (e.g. kubepods.slice for Guaranteed followed by the Burstable and BestEffort dirs), and the new values
+		// must reach the children before the parent here
+		for j := len(updaters[i]) - 1; j >= 0; j-- {
+			updater := updaters[i][j]
 			if !e.needUpdate(updater) {
 				continue
 			}
